@@ -41,6 +41,8 @@ import (
 	"github.com/veesix-networks/osvbng/pkg/ppp"
 	"github.com/veesix-networks/osvbng/pkg/svcgroup"
 	dhcp4local "github.com/veesix-networks/osvbng/plugins/dhcp4/local"
+	dhcp6local "github.com/veesix-networks/osvbng/plugins/dhcp6/local"
+	"github.com/veesix-networks/osvbng/pkg/dhcp6"
 )
 
 type c02Bus struct{ frames [][]byte }
@@ -127,6 +129,7 @@ type c02World struct {
 	comp  *Component
 	bus   *c02Bus
 	prov  *dhcp4local.Provider
+	prov6 *dhcp6local.Provider
 	sess  map[string]*c02Sess
 	grpP4 map[int]string
 	grpP6 map[int]string
@@ -228,6 +231,11 @@ func c02Build(cfgToks []string) (*c02World, error) {
 		return nil, err
 	}
 	w.prov = p.(*dhcp4local.Provider)
+	p6, err := dhcp6local.New(w.cfg)
+	if err != nil {
+		return nil, err
+	}
+	w.prov6 = p6.(*dhcp6local.Provider)
 	ifMgr := ifmgr.New()
 	ifMgr.Add(&ifmgr.Interface{SwIfIndex: 10, SupSwIfIndex: 2, Name: "TenGigE0/0.100", Type: ifmgr.IfTypeSub, OuterVlanID: 100})
 	ifMgr.Add(&ifmgr.Interface{SwIfIndex: 2, Name: "TenGigE0/0", Type: ifmgr.IfTypeHardware, MAC: []byte{0x52, 0x54, 0, 0x11, 0x22, 0x33}})
@@ -361,6 +369,49 @@ func c02Handle(p *dhcp4local.Provider, pkt *dhcp4.Packet) (resp *dhcp4.Packet, e
 	return
 }
 
+// DHCPv6 SOLICIT (1) / REQUEST (3) asking for IA_NA and IA_PD
+func c02V6Msg(mt byte, duid []byte) []byte {
+	b := []byte{mt, 0x12, 0x34, 0x56}
+	b = append(b, 0, 1, 0, byte(len(duid)))
+	b = append(b, duid...)
+	b = append(b, 0, 3, 0, 12, 0, 0, 0, 1, 0, 0, 0, 0, 0, 0, 0, 0)
+	b = append(b, 0, 25, 0, 12, 0, 0, 0, 2, 0, 0, 0, 0, 0, 0, 0, 0)
+	return b
+}
+
+// hand-written TLV walk over the reply (independent of the repo's builder/parser): IA_NA address, IA_PD prefix
+func c02V6Told(raw []byte) (string, string) {
+	a6, pd := "nil", "nil"
+	opts := raw[4:]
+	for len(opts) >= 4 {
+		code := int(opts[0])<<8 | int(opts[1])
+		l := int(opts[2])<<8 | int(opts[3])
+		if 4+l > len(opts) {
+			break
+		}
+		body := opts[4 : 4+l]
+		if (code == 3 || code == 25) && len(body) >= 12 {
+			sub := body[12:]
+			for len(sub) >= 4 {
+				sc := int(sub[0])<<8 | int(sub[1])
+				sl := int(sub[2])<<8 | int(sub[3])
+				if 4+sl > len(sub) {
+					break
+				}
+				if code == 3 && sc == 5 && sl >= 24 {
+					a6 = c02Num(net.IP(sub[4:20]))
+				}
+				if code == 25 && sc == 26 && sl >= 25 {
+					pd = new(big.Int).SetBytes(sub[13:29]).String() + "/" + strconv.Itoa(int(sub[12]))
+				}
+				sub = sub[4+sl:]
+			}
+		}
+		opts = opts[4+l:]
+	}
+	return a6, pd
+}
+
 func (w *c02World) op(f []string) string {
 	s := w.sess[f[1]]
 	if s == nil {
@@ -456,10 +507,11 @@ func (w *c02World) op(f []string) string {
 			s.bound4 = append(net.IP(nil), yi...) // ipoe.handleAck: sess.IPv4 = yiaddr
 		}
 		return strings.ToLower(f[0]) + " " + kind + ":" + c02Num(yi) + " ctx4=" + c02Num(s.ctx.IPv4Address)
-	case "IS": // IS sid vrf s6 spd o6 opd : ResolveV6 (told = bound at function level)
+	case "IS", "IV": // IS|IV sid vrf s6 spd o6 opd : ResolveV6 + local DHCPv6 provider SOLICIT (IS) / REQUEST (IV)
 		if s.proto != "I" || s.dead {
 			return "skip"
 		}
+		tag := strings.ToLower(f[0])
 		if s.ctx == nil {
 			s.ctx = allocator.NewContext(s.id, s.mac, uint16(100+s.grp), 0, c02VRF(f[2]), "", w.grpP4[s.grp], w.grpP6[s.grp],
 				c02Attrs(f[2], "-", f[3], f[4], "-", f[5], f[6]))
@@ -470,11 +522,28 @@ func (w *c02World) op(f []string) string {
 				r6 = dhcp.ResolveV6(s.ctx, prof)
 			}
 		}
+		tail := " ctx6=" + c02Num(s.ctx.IPv6Address) + " ctxpd=" + c02Pfx(s.ctx.IPv6Prefix)
 		if r6 == nil {
-			return "is nil ctx6=" + c02Num(s.ctx.IPv6Address) + " ctxpd=" + c02Pfx(s.ctx.IPv6Prefix)
+			return tag + " nil" + tail
 		}
+		duid := append([]byte{0, 3, 0, 1}, s.mac...)
+		mt := byte(1)
+		if f[0] == "IV" {
+			mt = 3
+		}
+		resp, err := w.prov6.HandlePacket(context.Background(), &dhcp6.Packet{SessionID: s.id, MAC: s.mac.String(),
+			SVLAN: uint16(100 + s.grp), DUID: duid, Raw: c02V6Msg(mt, duid), Resolved: r6})
+		if err != nil || resp == nil || len(resp.Raw) < 4 {
+			return tag + " err" + tail
+		}
+		a6, pd := c02V6Told(resp.Raw)
+		kind := "adv"
+		if resp.Raw[0] == 7 {
+			kind = "rep"
+		}
+		// ipoe.handleDHCPv6Reply binds what the REPLY carries; at function level the ADVERTISE is treated alike
 		s.bound6, s.boundP = r6.IANAAddress, r6.PDPrefix
-		return "is adv:" + c02Num(r6.IANAAddress) + ":" + c02Pfx(r6.PDPrefix) + " ctx6=" + c02Num(s.ctx.IPv6Address) + " ctxpd=" + c02Pfx(s.ctx.IPv6Prefix)
+		return tag + " " + kind + ":" + a6 + ":" + pd + tail
 	case "IR", "IT": // handleRelease / cleanupSessions (IR) and handleSubscriberTerminate (IT) release sequences
 		if s.proto != "I" || s.dead {
 			return "skip"
@@ -490,6 +559,9 @@ func (w *c02World) op(f []string) string {
 		}
 		if s.boundP != nil {
 			reg.ReleasePDByPrefix(s.boundP)
+		}
+		if f[0] == "IR" {
+			w.prov6.ReleaseLease(append([]byte{0, 3, 0, 1}, s.mac...))
 		}
 		s.dead = true
 		return strings.ToLower(f[0])
@@ -514,14 +586,14 @@ func c02RunCase(line string) (out string) {
 	if err != nil {
 		return "cfgerr " + strings.ReplaceAll(err.Error(), " ", "_")
 	}
-	res := []string{"init | " + allocator.GetGlobalRegistry().VerifC02Snapshot() + " | " + w.prov.VerifC02Leases()}
+	res := []string{"init | " + allocator.GetGlobalRegistry().VerifC02Snapshot() + " | " + w.prov.VerifC02Leases() + " | " + w.prov6.VerifC02Leases()}
 	for _, o := range parts[1:] {
 		f := strings.Fields(o)
 		if len(f) < 2 {
 			continue
 		}
 		r := w.op(f)
-		res = append(res, r+" | "+allocator.GetGlobalRegistry().VerifC02Snapshot()+" | "+w.prov.VerifC02Leases())
+		res = append(res, r+" | "+allocator.GetGlobalRegistry().VerifC02Snapshot()+" | "+w.prov.VerifC02Leases()+" | "+w.prov6.VerifC02Leases())
 	}
 	return strings.Join(res, " ; ")
 }
